@@ -557,14 +557,36 @@ static void b_compare(struct bst *s, const char *what)
  * destructively on a clone of the state obtained by replaying the current history */
 static void *b_fresh(void);
 static void b_apply(void *vs, int op, int check);
-static void b_delete_while_iterating(struct bst *s, int p)
+static char dw_seen[64][304];
+static int dw_ns, dw_pos, dw_p;
+static int dw_visit_cb(json_object *jso, int flags, json_object *parent, const char *key, size_t *index, void *ud)
+{
+	(void)jso;
+	(void)index;
+	(void)ud;
+	if (!parent || (flags & JSON_C_VISIT_SECOND))
+		return JSON_C_VISIT_RETURN_CONTINUE;
+	if (dw_ns < 64)
+		snprintf(dw_seen[dw_ns++], sizeof dw_seen[0], "%s", key);
+	int del = dw_p < 0 || dw_pos == dw_p;
+	dw_pos++;
+	if (del)
+	{
+		/* prune the member being visited; SKIP tells the visitor not to look at the (now released) node again */
+		json_object_object_del(parent, key);
+		return JSON_C_VISIT_RETURN_SKIP;
+	}
+	return JSON_C_VISIT_RETURN_CONTINUE;
+}
+static void b_delete_while_iterating(struct bst *s, int p, int form)
 {
 	struct bst *c = b_fresh();
 	for (int i = 0; i < bfs_cur_n; i++)
 		b_apply(c, bfs_cur_hist[i], 0);
 	cur_b = c;
-	static char seen[64][304];
+	char(*seen)[304] = dw_seen;
 	int ns = 0, pos = 0;
+	if (form == 0)
 	{
 		json_object_object_foreach(c->obj, k1, v1)
 		{
@@ -575,8 +597,17 @@ static void b_delete_while_iterating(struct bst *s, int p)
 			pos++;
 		}
 	}
+	else
+	{
+		dw_ns = dw_pos = 0;
+		dw_p = p;
+		int rc = json_c_visit(c->obj, 0, dw_visit_cb, NULL);
+		ns = dw_ns;
+		if (rc != 0)
+			b_fail(s, "delete-while-iterating", "visitor pruning position %d returned %d", p, rc);
+	}
 	if (ns != s->n)
-		b_fail(s, "delete-while-iterating", "deleting the current key at position %d: iteration delivered %d keys, expected %d", p, ns, s->n);
+		b_fail(s, "delete-while-iterating", "%s deleting the current key at position %d: iteration delivered %d keys, expected %d", form ? "visitor" : "foreach", p, ns, s->n);
 	else
 		for (int i = 0; i < s->n; i++)
 			if (strcmp(seen[i], b_keystr(s->mk[i])))
@@ -664,10 +695,14 @@ static void b_apply(void *vs, int op, int check)
 	b_compare(s, what);
 	if (!s->dead)
 	{
-		for (int p = 0; p < s->n && !s->dead; p++)
-			b_delete_while_iterating(s, p);
-		if (!s->dead)
-			b_delete_while_iterating(s, -1);
+		for (int form = 0; form < 2; form++)
+		{
+			for (int p = 0; p < s->n && !s->dead; p++)
+				if (form == 0 || p == 0 || p == s->n / 2 || p == s->n - 2) /* visitor: first, middle, last but one */
+					b_delete_while_iterating(s, p, form);
+			if (!s->dead)
+				b_delete_while_iterating(s, -1, form);
+		}
 	}
 }
 static int b_menu(void *vs, int *ops, int cap)
